@@ -885,19 +885,24 @@ def _r11(ctx, pkg):
     for local, opt in sorted(org.items()):
         if opt not in LIST_OPTIONS:
             continue
-        # the last assignment that turns the option text into a list
-        cands = [a for a in ast.walk(h) if isinstance(a, ast.Assign) and isinstance(a.targets[0], ast.Name) and a.targets[0].id == local
+        # the last assignment (in execution order: statements of a helper put back keep the helper's line numbers) that turns the
+        # option text into a list
+        order = [x for x in _in_order(h) if isinstance(x, ast.Assign)]
+        pos = {id(x): i for i, x in enumerate(order)}
+        top = {id(x) for x in h.body}
+        cands = [a for a in order if isinstance(a.targets[0], ast.Name) and a.targets[0].id == local
                  and not (isinstance(a.value, ast.Call) and ast.unparse(a.value.func) in ("self.option", "self.validate"))]
         if not cands:
             continue
-        a = sorted(cands, key=lambda x: x.lineno)[-1]
+        a = cands[-1]
         n += 1
         val = a.value
-        for _ in range(2):            # `items = [..]; option = items`: a local bound once is what it was bound to
-            if isinstance(val, ast.Name):
-                src = [x for x in ast.walk(h) if isinstance(x, ast.Assign) and len(x.targets) == 1 and isinstance(x.targets[0], ast.Name) and x.targets[0].id == val.id]
-                if len(src) == 1 and val.id != local:
-                    val = src[0].value
+        at = pos[id(a)]
+        for _ in range(3):            # `items = [..]; option = items`: a local is what the assignment that reaches this point bound it to
+            if isinstance(val, ast.Name) and val.id != local:
+                src = [x for x in order[:at] if len(x.targets) == 1 and isinstance(x.targets[0], ast.Name) and x.targets[0].id == val.id]
+                if src and (len(src) == 1 or (id(src[-1]) in top and id(a) in top)):
+                    val, at = src[-1].value, pos[id(src[-1])]
         st, why = _list_parse(val, ci.node)
         if st == "unknown":
             ctx.unrec("R11", f"--{opt}: list parse", (INIT, a.lineno), f"cannot tell whether every item survives: {why}")
